@@ -67,6 +67,12 @@ class Ctx:
                 w = out.work[c['key']]
                 k = 'workpred_matches' if [w[0], w[1]] in [list(x) for x in c['workpred']] else 'workpred_mismatches'
                 cov[k] = cov.get(k, 0) + 1
+        # ... and does the order in which the generated injector calls the providers equal the plan the model computes?
+        for (key, injn), ranseq in getattr(out, 'ran', {}).items():
+            pl = getattr(self, 'plans', {}).get((key, injn))
+            if pl:
+                k = 'plan_order_predicted_exactly' if tuple(ranseq) in pl else 'plan_order_differs'
+                cov[k] = cov.get(k, 0) + 1
         for c in cases:
             if c['key'] not in self.keys:
                 self.keys.add(c['key'])
@@ -177,6 +183,11 @@ class Ctx:
             m = _re.match(r'"([^"]*)", "([^"]*)", (\d+), (\d+)', w)
             if m:
                 pred.setdefault(m.group(1), set()).add((int(m.group(3)), int(m.group(4))))
+        self.plans = getattr(self, 'plans', {})
+        for w in core.tlc_prints(out, 'PLAN'):
+            m = _re.match(r'"([^"]*)", "([^"]*)", (".*")$', w)
+            if m:
+                self.plans.setdefault((m.group(1), m.group(2)), set()).add(tuple(json.loads(json.loads(m.group(3)))))
         log('WireAnalyze model-checked over %d programs: %d states generated, %d distinct (%.1fs)' % (len(cs), g, d, dt))
         self.add_design('WireAnalyze %s(%d programs)' % (label, len(cs)), g, d,
                         'implementation-shaped model of buildProviderMap / verifyAcyclic / solve / verifyArgsUsed; invariants MapRefines AcyclicRefines AcyclicWork SolveRefines PlanCorrect SolveWork; liveness Termination')
